@@ -282,10 +282,31 @@ impl Jsonify for Value {
       Value::List(items) => items.jsonify(),
       Value::Number(value) => value.jsonify(),
       Value::Null(_) => "null".to_string(),
-      Value::String(s) => format!("\"{}\"", s),
-      _ => format!("jsonify not implemented for: {}", self),
+      Value::String(s) => json_string(s),
+      // values having no counterpart in JSON are rendered as strings containing their textual form
+      _ => json_string(&self.to_string()),
     }
   }
+}
+
+/// Returns a `JSON` string literal with the quotation mark, the reverse solidus and
+/// the control characters of the specified text escaped.
+pub(crate) fn json_string(text: &str) -> String {
+  let mut result = String::with_capacity(text.len() + 2);
+  result.push('"');
+  for ch in text.chars() {
+    match ch {
+      '"' => result.push_str("\\\""),
+      '\\' => result.push_str("\\\\"),
+      '\n' => result.push_str("\\n"),
+      '\r' => result.push_str("\\r"),
+      '\t' => result.push_str("\\t"),
+      ch if (ch as u32) < 0x20 => result.push_str(&format!("\\u{:04x}", ch as u32)),
+      ch => result.push(ch),
+    }
+  }
+  result.push('"');
+  result
 }
 
 impl Value {
